@@ -82,8 +82,13 @@ class RecordingBTP:
     def __init__(self, world):
         self.world = world
         self.callbacks = {}
+        self.down = False          # environment fault: the lower layers reject every request
+        self.rejected = 0
 
     def btp_data_request(self, request):
+        if self.down:
+            self.rejected += 1
+            raise ConnectionError("lower layer not available")
         self.world.sent.append(Sent(self.world.ms, request.destination_port, bytes(request.data), request))
 
     def register_indication_callback_btp(self, port, callback):
@@ -120,9 +125,10 @@ class FacWorld(World):
         p = self.pending_timers()
         return p[0] if p else None
 
-    def fire_next(self):
+    def fire_next(self, late_ms: int = 0):
+        """Fire the next timer at its due time (+ ``late_ms``: the timer thread was scheduled late)."""
         t = self.next_timer()
-        self.set_ms(max(self.ms, self.timer_ms(t)))
+        self.set_ms(max(self.ms, self.timer_ms(t) + late_ms))
         self.fire(t, advance=False)
         return t
 
